@@ -12,6 +12,7 @@ HARNESSES = {
     'c03': dict(flavour='asan', srcs=['c03.cpp']),
     'c07': dict(flavour='asan', srcs=['c07.cpp']),
     'c08': dict(flavour='asan', srcs=['c08.cpp']),
+    'c18': dict(flavour='asan', srcs=['c18.cpp']),
 }
 
 PROPS = {
@@ -191,6 +192,23 @@ PROPS = {
              'twice (instantaneous detectors: changes at least twice).',
         assumptions=['first sample of the fast-fall test and of memory_reclaim, and ticks after the watched set changed '
                      '(memory_reclaim), are don\'t-cares as far as they can influence a verdict'],
+    ),
+    'C18': dict(
+        harness='c18', level='exploration',
+        quick=dict(shards=8, n=400, size=100),
+        thorough=dict(shards=16, n=15000, size=100),
+        rule='rapidcheck-generated scenario: 0-5 cgroups under the senpai cgroup pattern plus unmatched neighbours; '
+             'usage with file/anon active/inactive split, memory.min/high/max, swap limits and usage up the hierarchy, '
+             'host MemTotal / swap / swappiness, PSI some averages around the targets and totals advancing over 6-25 '
+             'ticks, usage drifting, cgroups removed, created and re-created under the same name; every senpai argument, '
+             'both modes, with/without memory.reclaim and memory.high.tmp, optional timed writes. The kernel model '
+             'stores limits page aligned and serves them back. Oracle: every write event of every tick (target '
+             'cgroup matched; limit = usage or aligned within [floor-4095, max(ceiling, floor)]; first limit of a new '
+             'identity = usage; reclaim size <= max_probe x (usage-floor) and only below both pressure targets and, '
+             'with swap validation, below swap_threshold; poke reset to max in the same tick; swappiness restored). '
+             'Non-trivial = >=1 adjusted (non-initial) limit or >=1 reclaim.',
+        assumptions=['usage is page aligned and PSI is in the upstream format (kernels Senpai can run on)',
+                     'nothing but senpai writes memory.high during the history'],
     ),
 }
 
